@@ -70,3 +70,77 @@ Theorem C01_state_determined_by_applied : forall (q : aop -> bool) pub unpub c0 
   resolve_full (filter q pub) (filter q unpub) no_opts = inr (Some (c0, s, ap)).
 Proof. exact unapplied_ops_inert. Qed.
 Print Assumptions C01_state_determined_by_applied.
+
+From Coq Require Import String NArith. From SV Require Import Base.Bytes Hash.Multihash Jws.Compact Resolve.Op Parser.Accept Parser.AcceptProofs Resolve.Apply Resolve.Inert Resolve.Spec Resolve.FromView Resolve.FromViewProofs.
+Local Close Scope Z_scope.
+
+(* an operation the resolution model treats as well signed satisfies the signed-request rules (reveal = hash of signing key, allowed alg/headers/key), consumes the commitment of that key, and the signature primitive accepted the signing input under that key *)
+Theorem C01_authorised_view_sound :
+  forall (p : pproto) (v : req_view) (kf : key_facts) (crypto_ok patch_applies : bool)
+           (c : coords) (intern : bytes -> Z),
+         let o := aop_of_view p v kf crypto_ok patch_applies c intern in
+         let s := rv_signed v in
+         let k := jwk_of_view (sv_key s) kf in
+         ty o <> Create ->
+         well_signed o ->
+         (rv_len v <= pp_max_op_size p)%Z /\
+         rv_schema_ok v = true /\
+         rv_struct_ok v = true /\
+         signed_rules p v /\
+         (ty o = Update -> hash_field_ok p (sv_delta_hash s)) /\
+         (ty o = Recover ->
+          hash_field_ok p (sv_delta_hash s) /\
+          hash_field_ok p (sv_recovery_commitment s) /\
+          (exists (code : N) (c' : bytes),
+             get_multihash_code (sv_recovery_commitment s) = Some code /\
+             get_commitment (jv_canonical (sv_key s)) code = Some c' /\
+             c' <> sv_recovery_commitment s)) /\
+         (ty o = Deactivate -> sv_did_suffix s = rv_did_suffix v) /\
+         (exists (code : N) (kc : bytes),
+            get_multihash_code (rv_reveal v) = Some code /\
+            get_commitment (jv_canonical (sv_key s)) code = Some kc /\ reveal_c o = intern kc) /\
+         (exists payload sig msg : bytes,
+            parse_compact (sv_compact s) (sv_hdr s) = Some (payload, sig) /\
+            signing_input (sv_hdr s) payload = Some msg /\
+            crypto_ok = true /\
+            jwk_decodes k = true /\
+            payload <> [] /\
+            sig <> [] /\
+            h_json_ok (sv_hdr s) = true /\
+            h_has_alg (sv_hdr s) = true /\
+            h_b64 (sv_hdr s) <> B64NotBool /\
+            (eqs (k_kty k) "EC" = true /\
+             (exists n : Z,
+                ec_key_size (k_crv k) = Some n /\ Z.of_nat (Datatypes.length sig) = (2 * n)%Z) \/
+             eqs (k_kty k) "EC" = false /\ eqs (k_kty k) "OKP" = true)).
+Proof. exact authorised_view_sound. Qed.
+Print Assumptions C01_authorised_view_sound.
+
+(* the boolean authorised of the inertness theorems gives well_signed (and sfx_ok for deactivate) on operations computed from views *)
+Theorem C01_authorised_implies_well_signed :
+  forall (p : pproto) (v : req_view) (kf : key_facts) (crypto_ok patch_applies : bool)
+           (c : coords) (intern : bytes -> Z),
+         let o := aop_of_view p v kf crypto_ok patch_applies c intern in
+         ty o <> Create ->
+         authorised o = true -> well_signed o /\ (ty o = Deactivate -> sfx_ok o = true).
+Proof. exact authorised_view_well_signed. Qed.
+Print Assumptions C01_authorised_implies_well_signed.
+
+(* a non-create request whose signature the primitive refuses is rejected by Apply in every state *)
+Theorem C01_forged_view_never_applies :
+  forall (p : pproto) (v : req_view) (kf : key_facts) (patch_applies : bool) 
+           (c : coords) (intern : bytes -> Z) (s : state),
+         ty_of_view v <> Create -> apply (aop_of_view p v kf false patch_applies c intern) s = None.
+Proof. exact forged_view_never_applies. Qed.
+Print Assumptions C01_forged_view_never_applies.
+
+(* an accepted non-create request always has a non-empty recomputed commitment (never the empty id 0) *)
+Theorem C01_parsed_reveal_nonzero :
+  forall (p : pproto) (v : req_view) (kf : key_facts) (crypto_ok patch_applies : bool)
+           (c : coords) (intern : bytes -> Z),
+         intern_ok intern ->
+         ty_of_view v <> Create ->
+         view_parse_ok p v = true ->
+         reveal_c (aop_of_view p v kf crypto_ok patch_applies c intern) <> 0%Z.
+Proof. exact parsed_reveal_nonzero. Qed.
+Print Assumptions C01_parsed_reveal_nonzero.
